@@ -14,8 +14,12 @@ def main():
     ap.add_argument("pid", nargs="?")
     ap.add_argument("--tier", default=os.environ.get("VERIF_TIER", "quick"))
     ap.add_argument("--replay")
+    ap.add_argument("--selftest", action="store_true")
     ap.add_argument("--seed", default=os.environ.get("VERIF_SEED", "0"))
     a = ap.parse_args()
+    if a.selftest:
+        from symx import selftest
+        return selftest.main()
     if a.replay:
         from symx.report import realrun
         with open(a.replay) as f:
